@@ -28,6 +28,7 @@ import (
 	"strings"
 	"sync"
 	"time"
+	_ "time/tzdata"
 
 	"github.com/google/gce-tcb-verifier/cmd"
 	"github.com/google/gce-tcb-verifier/cmd/output"
@@ -261,12 +262,30 @@ func c12Run(kc *keys.Context, c c12Cmd) (bool, string) {
 	return c12RunIn(keys.NewContext(c12Ctx(c), kc), c)
 }
 
+// c12Time is the creation time handed to a command. The instant is what the model sees; every other instant is
+// presented in a zone that observes daylight saving (as time.Now() is on such a machine, or a --timestamp with the
+// local offset): certificate lifetimes are durations, not calendar arithmetic in the creation time's zone.
+var c12DST = func() *time.Location {
+	l, err := time.LoadLocation("America/Los_Angeles")
+	if err != nil {
+		panic(err)
+	}
+	return l
+}()
+
+func c12Time(now int64) time.Time {
+	if now%2 == 1 {
+		return time.Unix(now, 0).In(c12DST)
+	}
+	return time.Unix(now, 0).UTC()
+}
+
 // c12RunIn is c12Run on a context that already carries the keys.Context (and whatever else the stack needs).
 func c12RunIn(ctx context.Context, c c12Cmd) (bool, string) {
 	switch c.kind {
 	case 'b':
 		ctx = rotate.NewBootstrapContext(ctx, &rotate.BootstrapContext{RootKeyCommonName: c.rootCn, SigningKeyCommonName: c.signCn,
-			RootKeySerial: new(big.Int).Set(c.rootSerial), SigningKeySerial: new(big.Int).Set(c.signSerial), Now: time.Unix(c.now, 0).UTC()})
+			RootKeySerial: new(big.Int).Set(c.rootSerial), SigningKeySerial: new(big.Int).Set(c.signSerial), Now: c12Time(c.now)})
 		return rotate.Bootstrap(ctx) == nil, ""
 	case 'r':
 		ser := big.NewInt(0) // the flag's default: "0 is default behavior: current key's serial + 1"
@@ -274,7 +293,7 @@ func c12RunIn(ctx context.Context, c c12Cmd) (bool, string) {
 			ser = new(big.Int).Set(c.signSerial)
 		}
 		ctx = rotate.NewSigningKeyContext(ctx, &rotate.SigningKeyContext{SigningKeyCommonName: c.signCn, SigningKeySerial: ser,
-			Now: time.Unix(c.now, 0).UTC()})
+			Now: c12Time(c.now)})
 		ctx, err := (&cmd.RotateCommand{}).InitContext(ctx)
 		if err != nil {
 			return false, ""
@@ -643,7 +662,11 @@ func c12Fixed() [][]c12Cmd {
 	}
 	w := func(ca, ks bool) c12Cmd { return c12Cmd{kind: 'w', wca: ca, wkeys: ks} }
 	day := int64(86400)
+	dst := time.Date(2024, time.March, 10, 19, 0, 1, 0, time.UTC).Unix()    // 12:00:01 PDT on the day daylight saving starts
+	dst2 := time.Date(2024, time.November, 3, 20, 0, 1, 0, time.UTC).Unix() // 12:00:01 PST on the day it ends
 	return [][]c12Cmd{
+		// creation times in a daylight-saving zone on the switch days (lifetimes land on the other side of a switch)
+		{b(false, false, "rootA", "signA", 1, 2, dst), r(false, false, "signA", 0, dst2), r(false, false, "signA", 0, dst2+2)},
 		// the non-vacuity history of the Lean file
 		{b(false, false, "GCE-cc-tcb-root", "GCE-uefi-signer", 1, 2, t0), r(false, false, "GCE-uefi-signer", 0, t0+day), r(false, false, "GCE-uefi-signer", 0, t0+2*day)},
 		// D18: bootstrap over a populated store
@@ -698,10 +721,10 @@ func c12RunHistory(which int, h []c12Cmd, seed uint64, seq bool) (res c12Result)
 	}
 	defer st.close()
 	cand := map[string]bool{"root": true, "primarySigningKey": true, "_1": true}
-	everLive := map[string]bool{}      // names that could sign at some point since the last key wipeout
-	everRecorded := map[string]bool{}  // names recorded by the authority since the last CA wipeout
-	tainted := false                   // a bootstrap ran over a populated store since the store was last empty
-	kgEntry := map[string]bool{}       // entries first recorded by a command that ran with keep_going
+	everLive := map[string]bool{}     // names that could sign at some point since the last key wipeout
+	everRecorded := map[string]bool{} // names recorded by the authority since the last CA wipeout
+	tainted := false                  // a bootstrap ran over a populated store since the store was last empty
+	kgEntry := map[string]bool{}      // entries first recorded by a command that ran with keep_going
 	prev := st.observe(cand)
 	for k, c := range h {
 		populated := !prev.empty()
@@ -753,7 +776,9 @@ func c12RunHistory(which int, h []c12Cmd, seed uint64, seq bool) (res c12Result)
 		}
 		// --- root profile
 		if r := cur.root; r != nil {
-			bad := func(f, what string) { find("c12/"+c.kindName()+"/root-profile/"+f, "served root certificate: "+what, k) }
+			bad := func(f, what string) {
+				find("c12/"+c.kindName()+"/root-profile/"+f, "served root certificate: "+what, k)
+			}
 			if !r.IsCA || !r.BasicConstraintsValid {
 				bad("isCA", "not a CA certificate")
 			}
